@@ -76,6 +76,18 @@ func Toleration(t *rapid.T, name string) corev1.Toleration {
 
 // Requirement draws a valid node selector requirement over the label grid.
 func Requirement(t *rapid.T, name string) corev1.NodeSelectorRequirement {
+	// now and then a requirement the selector grammar rejects (templates are not validated by the API server):
+	// the term that carries it matches no node
+	if rapid.IntRange(0, 9).Draw(t, name+"-malformed") == 0 {
+		return rapid.SampledFrom([]corev1.NodeSelectorRequirement{
+			{Key: "zone", Operator: corev1.NodeSelectorOpIn},
+			{Key: "zone", Operator: corev1.NodeSelectorOpNotIn},
+			{Key: "zone", Operator: corev1.NodeSelectorOpExists, Values: []string{"a"}},
+			{Key: "rank", Operator: corev1.NodeSelectorOpGt, Values: []string{"many"}},
+			{Key: "rank", Operator: corev1.NodeSelectorOpLt, Values: []string{"1", "2"}},
+			{Key: "zone", Operator: "Equals", Values: []string{"a"}},
+		}).Draw(t, name+"-malformedKind")
+	}
 	op := rapid.SampledFrom([]corev1.NodeSelectorOperator{corev1.NodeSelectorOpIn, corev1.NodeSelectorOpNotIn, corev1.NodeSelectorOpExists, corev1.NodeSelectorOpDoesNotExist, corev1.NodeSelectorOpGt, corev1.NodeSelectorOpLt}).Draw(t, name+"-op")
 	switch op {
 	case corev1.NodeSelectorOpGt, corev1.NodeSelectorOpLt:
@@ -106,8 +118,12 @@ func Affinity(t *rapid.T, name string, nodeNames []string) *corev1.Affinity {
 			term.MatchExpressions = append(term.MatchExpressions, Requirement(t, fmt.Sprintf("%s-t%d-e%d", name, i, j)))
 		}
 		if len(nodeNames) > 0 && rapid.IntRange(0, 3).Draw(t, fmt.Sprintf("%s-t%d-field", name, i)) == 0 {
-			op := rapid.SampledFrom([]corev1.NodeSelectorOperator{corev1.NodeSelectorOpIn, corev1.NodeSelectorOpNotIn}).Draw(t, fmt.Sprintf("%s-t%d-fop", name, i))
-			term.MatchFields = []corev1.NodeSelectorRequirement{{Key: "metadata.name", Operator: op, Values: []string{rapid.SampledFrom(nodeNames).Draw(t, fmt.Sprintf("%s-t%d-fv", name, i))}}}
+			op := rapid.SampledFrom([]corev1.NodeSelectorOperator{corev1.NodeSelectorOpIn, corev1.NodeSelectorOpIn, corev1.NodeSelectorOpNotIn, corev1.NodeSelectorOpNotIn, corev1.NodeSelectorOpExists}).Draw(t, fmt.Sprintf("%s-t%d-fop", name, i))
+			vals := []string{rapid.SampledFrom(nodeNames).Draw(t, fmt.Sprintf("%s-t%d-fv", name, i))}
+			if rapid.IntRange(0, 5).Draw(t, fmt.Sprintf("%s-t%d-fmulti", name, i)) == 0 {
+				vals = append(vals, "n9") // a field requirement with two values is not valid: the term matches nothing
+			}
+			term.MatchFields = []corev1.NodeSelectorRequirement{{Key: "metadata.name", Operator: op, Values: vals}}
 		}
 		sel.NodeSelectorTerms = append(sel.NodeSelectorTerms, term)
 	}
